@@ -717,7 +717,12 @@ impl Display for LinearModel {
         } else {
             format!(" + {}", self.objective_offset)
         };
-        let objective = format!("{}{}", objective, offset);
+        // `solve` takes no expression in the grammar
+        let objective = if self.optimization_type == OptimizationType::Satisfy {
+            "".to_string()
+        } else {
+            format!(" {}{}", objective, offset)
+        };
         let domain: String = if !self.domain.is_empty() {
             format!(
                 "\ndefine\n    {}",
@@ -731,7 +736,7 @@ impl Display for LinearModel {
         };
         write!(
             f,
-            "{} {}\ns.t.\n{}{}",
+            "{}{}\ns.t.\n{}{}",
             self.optimization_type, objective, constraints, domain
         )
     }
